@@ -47,3 +47,29 @@ claim('C12', 'proof',
       'circles (needs an acos monotonicity law); polygon/face distances and '
       'pole_of_inaccessibility are covered by the property oracle only.',
       'DESIGN.md 4 C12')
+
+claim('C10', 'proof',
+      'Lean 4 theorems on py2lean-generated min/max kernels (finite table analysis for arcs, scan invariant) + exact support-function oracle on the real code',
+      'Proved for every input: segment/ray/sphere/cone/cylinder boxes contain the object, are '
+      'tight and centred; the Arc2D extremum matrices and quadrant thresholds (regenerated from '
+      'the source) give a containing and tight box for all 16 quadrant pairs, inverted or not, '
+      'under abstract trig monotonicity laws witnessed over R; the literal vertex scan with its '
+      'elif returns the true min/max of any list; 3D circle boxes. Collections, overlap '
+      'predicates, polylines/polygons/meshes/faces/polyfaces and the repaired Arc3D partial-arc '
+      'branch are decided by an exact oracle on the real code (all 65x65 angle pairs on a '
+      '1/64-turn grid, collections of 1..8, rotated frames).',
+      'Trusted: Lean kernel, py2lean, harness. The vertex-scan loops of the composite classes '
+      'are hand-modelled (Lemmas/MinMax) and tied by the oracle, not generated; bounding.py '
+      'helpers are oracle-only; float rounding outside the model.',
+      'DESIGN.md 4 C10')
+claim('C17', 'proof',
+      'Lean 4 theorems on generated parametrisation / split kernels, exact-field loop model, IEEE-double loop model run for every n <= 500; exact oracle on the real code',
+      'Proved: point_at is the affine parametrisation, subdivide_evenly over an exact field '
+      'returns exactly n+1 equally spaced points (fuel-bounded loop model), arc points lie on '
+      'the circle at the stated angle, cc_difference ordering, segment/plane split pieces meet '
+      'at the cut and lengths add. The double-precision counter loop is modelled in Lean '
+      '(Model/SubdivFloat) and compared with the real count for every n in 1..500. Arc and '
+      'polyline splitting, to_polyline and subdivide(distances) are decided on the real code.',
+      'Trusted: Lean kernel, py2lean, harness; Lean Float = platform IEEE double for the counter '
+      'model; splitting of arcs/polylines is oracle-only.',
+      'DESIGN.md 4 C17')
